@@ -5,6 +5,7 @@ import (
 	codectypes "github.com/cosmos/cosmos-sdk/codec/types"
 	sdk "github.com/cosmos/cosmos-sdk/types"
 	"github.com/ethereum/go-ethereum/common"
+	"math/big"
 
 	"github.com/functionx/fx-core/v8/x/crosschain/types"
 	"github.com/functionx/fx-core/v8/zzverif/models"
@@ -110,4 +111,60 @@ func VerifC18AttestationHandlerFailure() {
 		rt.Cover("handler-succeeded")
 		rt.Assert(e.k.HasBridgeToken(e.ctx, newDenom), "a successful handler's writes are committed")
 	}
+}
+
+// VerifC18PlainDestinationFailure: an observed inbound bridge call carrying two tokens to a plain
+// account (no contract call), where the conversion of the first or of the second coin into its
+// ERC-20 form fails (the token pair was switched off). The sub-step is a tolerated failure: the
+// state afterwards holds the refund record for exactly the deposited tokens and nothing the failed
+// sub-step wrote - in particular no ERC-20 from a conversion that succeeded before the failing one.
+func VerifC18PlainDestinationFailure() {
+	e := verifBridgeState()
+	e.k.SetLastObservedBlockHeight(e.ctx, 1000, 90)
+	base2, bridgeDenom2, erc2 := e.verifSecondToken()
+	module := models.ModuleAddress(verifModule)
+	to := common.HexToAddress(verifTargetContract) // a plain account: never added to the contract set
+	x1, x2 := verifAmt("deposit.usdt", 64), verifAmt("deposit.fxusd", 64)
+	rt.Assume(rt.And(x1.IsPositive(), x2.IsPositive()))
+	pre1, pre2 := verifAmt("balance.usdt", 64), verifAmt("balance.fxusd", 64)
+	e.bank.SetBalance(to.Bytes(), verifBase, pre1)
+	e.bank.SetBalance(to.Bytes(), base2, pre2)
+	e.bank.SetBalance(module, e.bridgeDenom, pre1)
+	e.bank.SetBalance(module, bridgeDenom2, pre2)
+	switch rt.Choose("disabledPair", 3) {
+	case 1:
+		if _, err := e.ek.ToggleTokenConvert(e.ctx, base2); err != nil { // "fxusd" sorts first
+			rt.Assert(false, "harness: toggle")
+		}
+	case 2:
+		if _, err := e.ek.ToggleTokenConvert(e.ctx, verifBase); err != nil { // "usdt" sorts second
+			rt.Assert(false, "harness: toggle")
+		}
+	}
+	claim := &types.MsgBridgeCallClaim{ChainName: verifModule, BridgerAddress: verifOracleIdent(0).bridger.String(), EventNonce: 7, BlockHeight: 900,
+		Sender: verifAddrB, Refund: verifTargetContract, To: verifTargetContract, TokenContracts: []string{verifTokenA, verifTokenB}, Amounts: []sdkmath.Int{x1, x2},
+		Data: "", Value: sdkmath.ZeroInt(), Memo: "", TxOrigin: verifAddrB}
+	tok1 := e.tok.BalanceOf(verifErc20Token, to)
+	tok2 := e.tok.BalanceOf(erc2, to)
+	rt.Cover("state-built")
+	err := e.k.BridgeCallHandler(e.ctx, claim)
+	if err != nil {
+		rt.Cover("handler-error")
+		return // the whole event handler is rolled back by its caller
+	}
+	call, refunded := e.k.GetOutgoingBridgeCallByNonce(e.ctx, 1)
+	if !refunded {
+		rt.Cover("delivered")
+		rt.Assert(rt.And(e.tok.BalanceOf(verifErc20Token, to).Cmp(new(big.Int).Add(tok1, x1.BigInt())) == 0, e.tok.BalanceOf(erc2, to).Cmp(new(big.Int).Add(tok2, x2.BigInt())) == 0),
+			"a delivered call credits exactly the deposited tokens as ERC-20")
+		return
+	}
+	rt.Cover("refund-recorded")
+	rt.Assert(rt.And(e.tok.BalanceOf(verifErc20Token, to).Cmp(tok1) == 0, e.tok.BalanceOf(erc2, to).Cmp(tok2) == 0), "no token conversion of the failed sub-step survives")
+	rt.Assert(len(call.Tokens) == 2, "the refund call carries both deposited tokens")
+	if len(call.Tokens) == 2 {
+		sum := call.Tokens[0].Amount.Add(call.Tokens[1].Amount)
+		rt.Assert(sum.Equal(x1.Add(x2)), "the refund call carries exactly the deposited amounts")
+	}
+	rt.Assert(rt.And(e.bank.Balance(to.Bytes(), verifBase).Equal(pre1), e.bank.Balance(to.Bytes(), base2).Equal(pre2)), "the receiver's holdings are what they were before the deposit")
 }
